@@ -107,8 +107,10 @@ class PopenFuture(concurrent.futures.Future):
             processes.append(parent_process)
 
             # ask politely to terminate first
+            # (a process that has exited in the meantime must not stop us from signalling the others)
             for process in processes:
-                process.terminate()
+                with contextlib.suppress(psutil.NoSuchProcess):
+                    process.terminate()
 
             # termination grace period
             with contextlib.suppress(psutil.TimeoutExpired, subprocess.TimeoutExpired):
@@ -116,8 +118,9 @@ class PopenFuture(concurrent.futures.Future):
 
             # after grace period, force kill
             for process in processes:
-                if process.is_running():
-                    process.kill()
+                with contextlib.suppress(psutil.NoSuchProcess):
+                    if process.is_running():
+                        process.kill()
 
         except psutil.NoSuchProcess:
             # process already terminated, nothing to do
